@@ -39,10 +39,11 @@ def init(opts):
 PROPDEFS = {
     1: dict(name="count", values=[1, 2, 3], unit="mV", definition="an integer property",
             uncertainty=[0.5, 0.25, 0.5], reference=["ref-a", "", "ref-c"]),
-    2: dict(name="label ü", values=["a", "", "名前"], unit=None, definition=None,
-            uncertainty=[0.125, 0.125, 0.125], reference=["", "", ""]),
-    3: dict(name="ratio", values=[1.5, -2.25], unit="s", definition="floats",
+    # (1 and 2 live in the same section: the tool may be interrupted between two properties of one section)
+    2: dict(name="ratio", values=[1.5, -2.25], unit="s", definition="floats",
             uncertainty=[0.0, 0.0], reference=["", ""]),
+    3: dict(name="label ü", values=["a", "", "名前"], unit=None, definition=None,
+            uncertainty=[0.125, 0.125, 0.125], reference=["", "", ""]),
 }
 DIMDEFS = {1: dict(name="time", data=[0.5, 1.0, 2.5, 4.0], unit="ms", label="time"),
            2: dict(name="depth", data=[1.0, 2.0, 3.0], unit="um", label="depth")}
@@ -63,7 +64,7 @@ def build_new(nixio, path, P, D):
     sub = sec.create_section("sub", "t")
     for p in P:
         pd = PROPDEFS[p]
-        pr = (sec if p != 2 else sub).create_property(pd["name"], pd["values"])
+        pr = (sec if p != 3 else sub).create_property(pd["name"], pd["values"])
         if pd["unit"]:
             pr.unit = pd["unit"]
         if pd["definition"]:
@@ -121,7 +122,7 @@ def downgrade(path, file0, P, D):
             if file0["props"][str(p)] != "compound":
                 continue
             pd = PROPDEFS[p]
-            group = hf["metadata/sec/properties"] if p != 2 else hf["metadata/sec/sections/sub/properties"]
+            group = hf["metadata/sec/properties"] if p != 3 else hf["metadata/sec/sections/sub/properties"]
             old = group[pd["name"]]
             attrs = dict(old.attrs)
             vals = old[...]
@@ -159,7 +160,7 @@ def representation(path, P, D):
               "props": {}, "dims": {}}
         for p in P:
             pd = PROPDEFS[p]
-            group = hf["metadata/sec/properties"] if p != 2 else hf["metadata/sec/sections/sub/properties"]
+            group = hf["metadata/sec/properties"] if p != 3 else hf["metadata/sec/sections/sub/properties"]
             st["props"][str(p)] = "compound" if len(group[pd["name"]].dtype) else "plain"
         for d in D:
             dim = hf["data/blk/data_arrays"][DIMDEFS[d]["name"]]["dimensions/1"]
@@ -222,7 +223,7 @@ def expected_extras(content, P, file0):
         if file0["props"][str(p)] != "compound":
             continue
         pd = PROPDEFS[p]
-        sec = "sec" if p != 2 else "sec/sub"
+        sec = "sec" if p != 3 else "sec/sub"
         unc = pd["uncertainty"]
         if len(set(unc)) > 1:
             extra[(sec, pd["name"] + ".uncertainty")] = unc
